@@ -380,7 +380,7 @@ func TestVerif_C04_Pool(t *testing.T) {
 		watchdog := false
 		waitReqs := func(need int64) {
 			base := atomic.LoadInt64(&reqs)
-			deadline := time.Now().Add(60 * time.Second)
+			deadline := time.Now().Add(180 * time.Second)
 			for atomic.LoadInt64(&reqs)-base < need {
 				if time.Now().After(deadline) {
 					watchdog = true
@@ -406,7 +406,7 @@ func TestVerif_C04_Pool(t *testing.T) {
 			r.Violation("C04:pool:"+pol+":useService-concurrent:panic:"+updSite+":"+kit.MsgClass(updPanic), pc)
 		}
 		if watchdog {
-			r.Inconclusive("phase 2 made no progress for 60 s (watchdog)")
+			r.Inconclusive("phase 2 made no progress for 180 s (watchdog)")
 		}
 		widths := map[int]bool{}
 		good := true
